@@ -255,6 +255,7 @@ class Sim:
         self.received: list = []
         self.status: list = []
         self.recv_after_close_returned = 0
+        self.on_close_return = []
         self.close_returned = False
         self.heartbeat_ticks = 0
         self.status_cb_mode = status_cb
@@ -304,6 +305,8 @@ class Sim:
             await asyncio.sleep(0.3)          # only the CONNECTED notification suspends (others return at once)
         if self.status_cb_mode == "slow_disconnected" and state.name == "DISCONNECTED":
             await asyncio.sleep(0.3)
+        if self.status_cb_mode == "slow_closed" and state.name == "CLOSED":
+            await asyncio.sleep(0.3)
 
     async def _on_receive(self, msg):
         self.recv_cb_calls += 1
@@ -330,6 +333,8 @@ class Sim:
             self.ev("ret", name=name)
             if name == "close":
                 self.close_returned = True
+                for fn in list(self.on_close_return):
+                    fn()
             return r
         except BaseException as e:  # noqa: BLE001
             self.ev("ret", name=name, exc=type(e).__name__)
